@@ -178,6 +178,13 @@ func execX(fs, hexcode string) wres {
 		if steps >= xStepLimit {
 			return wres{Out: "steplimit", Kind: "X-steplimit", Key: key()}
 		}
+		if op == opEQUAL { // EQUAL on two structs is reflect.DeepEqual (Go library code): outside the model
+			a, e1 := e.EvalStack.Peek(0)
+			b, e2 := e.EvalStack.Peek(1)
+			if e1 == nil && e2 == nil && a.GetType() == vmt.StructType && b.GetType() == vmt.StructType {
+				return wres{Out: "unmodelled", Kind: "X-unmodelled-deepequal", Key: ""}
+			}
+		}
 		steps++
 		seen[byte(op)] = true
 		state, err := e.ExecuteOp(op, e.Context)
@@ -269,6 +276,7 @@ func shapeOf(v vmt.VmValue) string {
 }
 
 var wrapped bool
+var lastSys string // coverage only: the last syscall handler entered by the current case
 
 // wrapSyscalls: the harness notes the shape of the argument of the three syscalls that recurse over a value, then calls the
 // registered handler unchanged (neovm.ServiceMap is the repository's own exported registry).
@@ -277,6 +285,15 @@ func wrapSyscalls() {
 		return
 	}
 	wrapped = true
+	for _, m := range []map[string]nvm.ServiceHandler{nvm.ServiceMap, nvm.ServiceMapDeprecated, nvm.ServiceMapNew} {
+		for name, orig := range m {
+			name, orig := name, orig
+			m[name] = func(service *nvm.NeoVmService, engine *vm.Executor) error {
+				lastSys = name
+				return orig(service, engine)
+			}
+		}
+	}
 	for name, idx := range map[string]int64{nvm.NATIVE_INVOKE_NAME: 3, nvm.RUNTIME_SERIALIZE_NAME: 0, nvm.RUNTIME_NOTIFY_NAME: 0} {
 		orig := nvm.ServiceMap[name]
 		name, idx := name, idx
@@ -315,10 +332,15 @@ func execV(gasS, hexcode string) wres {
 		panic("harness: MakeBlock: " + err.Error())
 	}
 	inv := "ok"
+	lastSys = ""
 	if res, err := w.kit.Exec(blk); err != nil {
 		inv = "blockerr"
 	} else if len(res.Notify) == 1 && res.Notify[0].State == 0 {
 		inv = "fail"
+	}
+	sys := lastSys
+	if i := strings.LastIndex(sys, "."); i >= 0 {
+		sys = sys[strings.LastIndex(sys[:i], ".")+1:]
 	}
 	pre := "ok"
 	if _, err := w.kit.Ledger.PreExecuteContract(tx); err != nil {
@@ -331,7 +353,7 @@ func execV(gasS, hexcode string) wres {
 			key = key[:64]
 		}
 	}
-	return wres{Out: "nocrash", Kind: "V-inv:" + inv + "-pre:" + pre, Key: key}
+	return wres{Out: "nocrash", Kind: "V-" + sys + "-inv:" + inv + "-pre:" + pre, Key: key}
 }
 
 // ---------------------------------------------------------------- N: native contracts through native.NativeService
